@@ -76,7 +76,7 @@ var ReqVariants = map[string][]string{
 		// spellings a numeric parser takes for 13 but that are not the version token "13" (RFC 6455 §4.2.1: no leading zeros)
 		"num-013", "num-0013", "num-+13", "num-13.0", "num-0xd", "num-1_3", "num-13e0"},
 	"key":        {"canonical", "absent", "case-name", "blanks", "len23", "len25", "nonbase64-24", "decodes-17", "decodes-18", "empty", "dup-same", "dup-diff", "len16raw", "cr-inside", "cr-cr-tail", "cr-tail"},
-	"extra":      {"none", "some", "long-value", "many", "no-colon-line", "empty-name", "cr-only-line"},
+	"extra":      {"none", "some", "long-value", "many", "no-colon-line", "empty-name", "cr-only-line", "token-names", "blank-value"},
 	"eol":        {"crlf", "lf"},
 }
 
@@ -375,6 +375,17 @@ func BuildReq(rng *rand.Rand, choice map[string]string, protoHdrs, extHdrs []str
 		}
 	case "long-value":
 		add("Cookie", " "+strings.Repeat("abcdefghij", 20+rng.Intn(600)))
+	case "token-names":
+		// RFC 7230 3.2.6: a field name is a token, and a token has more characters than letters, digits and '-'
+		for i := 0; i < 1+rng.Intn(3); i++ {
+			add(TokenNames[rng.Intn(len(TokenNames))], " v"+fmt.Sprint(rng.Intn(1000)))
+		}
+	case "blank-value":
+		// a field value may be empty, or nothing but optional whitespace
+		add(extraNames[rng.Intn(len(extraNames))], []string{"", " ", "  ", "\t", " \t "}[rng.Intn(5)])
+		if rng.Intn(2) == 0 {
+			add("X-Other", " v")
+		}
 	case "many":
 		for i := 0; i < 5; i++ {
 			add(extraNames[rng.Intn(len(extraNames))], " "+strings.Repeat("z", rng.Intn(80)))
@@ -420,3 +431,7 @@ func BuildReq(rng *rand.Rand, choice map[string]string, protoHdrs, extHdrs []str
 	}
 	return r
 }
+
+// TokenNames are legal header field names (RFC 7230 tokens) using more of the token alphabet than
+// letters, digits and '-'.
+var TokenNames = []string{"X_Request_Id", "X.Trace", "x-amz_id+2", "X-A!#$%&'*^`|~", "_", "~x", "a.b_c+d", "X-Trace.Span_Id"}
